@@ -55,7 +55,7 @@ def plan(tier, seed):
 def mandatory(tier):
     out = [f"model/{m}" for m in MODELS] + [f"kind/{k}" for k in X.KINDS]
     out += [f"flags/{f}" for f in ["link=False,update=False", "link=False,update=True", "link=True,update=False", "link=True,update=True", "inv"]]
-    out += [f"change/{c}" for c in CHANGES] + ["before_change", "after_change", "updated_buffers_forward"]
+    out += [f"change/{c}" for c in CHANGES] + ["before_change", "after_change", "updated_buffers_forward", "non_identity"]
     return out
 
 
@@ -155,7 +155,10 @@ def run_item(ctx, item):
         xb = np.broadcast_to(x.numpy(), back.shape)
         ctx.bucket(stage)
         moved = float((y - x).abs().max())
-        ctx.true("forward_is_not_identity", moved > 1e-4, key="generator/identity", stage=stage, **info)
+        if moved > 1e-4:  # generator sanity (see C06): counted, never judged
+            ctx.bucket("non_identity")
+        else:
+            ctx.count("near_identity_cases")
         ctx.close("inverse_after_forward_is_identity", back, xb, tol, key=f"inverse/{stage}/{'velocity' if velocity else 'linear'}", stage=stage, history=list(history), moved=moved, **info)
         ctx.close("forward_after_inverse_is_identity", fwd, xb, tol, key=f"inverse/{stage}/{'velocity' if velocity else 'linear'}", stage=stage, history=list(history), moved=moved, **info)
         if ready and back_f is not None:
